@@ -7,6 +7,7 @@ From Coq Require Import ZArith List Bool Lia.
 From Emmet Require Import lib.Base model.MarkupTokenizer model.MarkupParser model.MarkupConvert model.MarkupResolve
      proofs.ParserSpine proofs.TextSpec proofs.TextProofs proofs.TextLiteral proofs.ConvertProofs proofs.SafeResolve
      proofs.AttrText proofs.AttrTextParse proofs.AttrTextConvert proofs.AttrTextFlat proofs.AttrTextExpand.
+From Emmet Require proofs.ExpandTree.
 Local Open Scope nat_scope.
 
 (* ================================================================ A. the parsed forest consists of the written elements *)
@@ -321,42 +322,50 @@ Fixpoint tmap (cfg : mconfig) (n : anode) : anode :=
   end.
 
 Lemma transform_node_quiet cfg pn top n :
-  quiet_node cfg n -> transform_node cfg pn top n = (merge_node cfg n, false).
+  quiet_node cfg n -> transform_node_pre cfg pn top n = (merge_node cfg n, false).
 Proof.
   destruct n as [nm v rp at_ ch sc]. unfold quiet_node, quiet_name. cbn [an_name].
   destruct nm as [[|c0 name]|]; try contradiction. intros [Hl [Hlab Hx]].
-  unfold transform_node, merge_node. cbn [nonempty]. rewrite Hl. cbn [opt_str_eqb]. rewrite Hlab. cbn [andb].
+  unfold transform_node_pre, merge_node. cbn [nonempty]. rewrite Hl. cbn [opt_str_eqb]. rewrite Hlab. cbn [andb].
   destruct (str_eqb (mc_syntax cfg) s_xsl && (str_eqb (c0 :: name) s_xsl_variable || str_eqb (c0 :: name) s_xsl_with_param));
     [discriminate|]. cbn [andb]. reflexivity.
 Qed.
 
-Lemma transform_tree_quiet cfg : forall n pn top,
-  Forall (quiet_node cfg) (nodes n) -> transform_tree cfg pn top false n = (tmap cfg n, false).
+(* BEM off: transform is the steps before the addon *)
+Lemma transform_tree_quiet cfg : mc_bem cfg = false -> forall n pn top anc,
+  Forall (quiet_node cfg) (nodes n) ->
+  exists path, transform_tree cfg pn top false anc n = Ok (tmap cfg n, false, path).
 Proof.
-  apply (anode_ind' (fun n => forall pn top, Forall (quiet_node cfg) (nodes n) ->
-                                             transform_tree cfg pn top false n = (tmap cfg n, false))).
-  intros nm v rp at_ ch sc HF pn top H. cbn [nodes] in H. inversion H as [|x y Hn Hk]; subst.
+  intros Hbem.
+  apply (anode_ind' (fun n => forall pn top anc, Forall (quiet_node cfg) (nodes n) ->
+                               exists path, transform_tree cfg pn top false anc n = Ok (tmap cfg n, false, path))).
+  intros nm v rp at_ ch sc HF pn top anc H. cbn [nodes] in H. inversion H as [|x y Hn Hk]; subst.
   assert (Hq : quiet_node cfg (ANode nm v rp at_ ch sc)) by exact Hn.
-  cbn [transform_tree andb]. rewrite (transform_node_quiet cfg pn top _ Hq). cbn [merge_node orb andb negb].
-  set (go := fix go (l : list anode) (pd : bool) : list anode * bool :=
-               match l with
-               | [] => ([], pd)
-               | c :: r =>
-                   let '(c', pd1) := transform_tree cfg (Some nm) false pd c in
-                   let '(r', pd2) := go r pd1 in (c' :: r', pd2)
-               end).
-  assert (HG : go ch false = (map (tmap cfg) ch, false)).
-  { clear -HF Hk. induction ch as [|c k IH]; [reflexivity|].
+  rewrite ExpandTree.transform_tree_eq. cbv zeta. cbn [andb].
+  assert (Etn : transform_node cfg pn top anc (ANode nm v rp at_ ch sc) =
+                Ok (merge_node cfg (ANode nm v rp at_ ch sc), false,
+                    anc ++ [MarkupBem.mkP (an_attrs (merge_node cfg (ANode nm v rp at_ ch sc))) None])).
+  { unfold transform_node. rewrite (transform_node_quiet cfg pn top _ Hq). rewrite Hbem. reflexivity. }
+  assert (Hgo : forall pth, exists pth2, ExpandTree.tt_kids cfg nm ch false pth = Ok (map (tmap cfg) ch, false, pth2)).
+  { clear -HF Hk. induction ch as [|c k IH]; intros pth; [eexists; reflexivity|].
     inversion HF as [|? ? Hc Hl]; subst. cbn [flat_map] in Hk. apply Forall_app in Hk. destruct Hk as [Hk1 Hk2].
-    cbn [go]. rewrite (Hc (Some nm) false Hk1). fold go. rewrite (IH Hl Hk2). reflexivity. }
-  rewrite HG. reflexivity.
+    destruct (Hc (Some nm) false pth Hk1) as [pth1 Ec].
+    cbn [ExpandTree.tt_kids]. fold (ExpandTree.tt_kids cfg nm). rewrite Ec. cbn [bind].
+    destruct (IH Hl Hk2 pth1) as [pth2 Ek]. rewrite Ek. cbn [bind map]. eexists. reflexivity. }
+  cbn [merge_node] in Etn.
+  destruct (Hgo (anc ++ [MarkupBem.mkP (an_attrs (ANode nm v rp (merge_attributes (mc_reverse_attrs cfg) at_) ch sc)) None]))
+    as [pth2 Eg].
+  exists (firstn (length anc) pth2).
+  eapply eq_trans; [apply (ExpandTree.bind_ok _ _ _ Etn)|]. cbv beta iota. cbn [orb andb].
+  eapply eq_trans; [apply (ExpandTree.bind_ok _ _ _ Eg)|]. reflexivity.
 Qed.
 
-Lemma transform_list_quiet cfg : forall l,
-  Forall (quiet_node cfg) (flat_map nodes l) -> transform_list cfg l = map (tmap cfg) l.
+Lemma transform_list_quiet cfg : mc_bem cfg = false -> forall l,
+  Forall (quiet_node cfg) (flat_map nodes l) -> transform_list cfg l = Ok (map (tmap cfg) l).
 Proof.
-  induction l as [|c r IH]; intros H; [reflexivity|]. cbn [flat_map] in H. apply Forall_app in H. destruct H as [H1 H2].
-  cbn [transform_list map]. rewrite (transform_tree_quiet cfg c None true H1). cbn [fst]. rewrite (IH H2). reflexivity.
+  intros Hbem. induction l as [|c r IH]; intros H; [reflexivity|]. cbn [flat_map] in H. apply Forall_app in H. destruct H as [H1 H2].
+  cbn [transform_list map]. destruct (transform_tree_quiet cfg Hbem c None true [] H1) as [path E].
+  rewrite E. cbn [bind]. rewrite (IH H2). reflexivity.
 Qed.
 
 Lemma strip_tmap cfg n : strip (tmap cfg n) = merge_node cfg (strip n).
@@ -416,12 +425,12 @@ Qed.
 
 Theorem statement_markup_parse cfg (xs : list (selem * sop)) :
   Forall (fun x => selem_ok (fst x) /\ jsx_ok (mc_jsx cfg) (fst x) /\ plain_name cfg (fst x)) xs ->
-  mc_text cfg = WNone ->
+  mc_text cfg = WNone -> mc_bem cfg = false ->
   exists forest,
     markup_parse cfg (stmt_text xs) = Ok forest /\
     apreNL 0 forest = map (fun x => (fst x, resolved_node (mc_reverse_attrs cfg) (snd x))) (edenote 0 xs).
 Proof.
-  intros H Htext.
+  intros H Htext Hbem.
   assert (H1 : Forall selem_ok (map fst xs)).
   { apply Forall_map. eapply Forall_impl; [|exact H]. cbn beta. tauto. }
   assert (H2 : Forall (fun x => selem_ok (fst x)) xs).
@@ -456,7 +465,7 @@ Proof.
   - unfold markup_parse. fold env. unfold parse_abbr.
     rewrite (toks_stmt xs 0 None H1 : tokenize (stmt_text xs) = _). rewrite Hp. rewrite Hconv. cbn [bind].
     rewrite walk_resolve_eq. rewrite walk_list_id.
-    + cbn [bind]. rewrite transform_list_quiet; [reflexivity|].
+    + cbn [bind]. rewrite (transform_list_quiet _ Hbem); [reflexivity|].
       apply Hall. intros e [_ Hq] Hok. unfold quiet_node, elem_node. cbn [an_name]. exact Hq.
     + apply Hall. intros e [Hs _] Hok. unfold nosnip, elem_node, snippet_of. cbn [an_name].
       destruct Hok as [[Hne _] _]. destruct (se_name e) as [|c0 nm] eqn:En; [congruence|]. rewrite Hs. reflexivity.
